@@ -69,4 +69,19 @@ CLAIMED["C05"] = {
             "of writes / of sharing.",
 }
 
+CLAIMED["C19"] = {
+    "technique": "static analysis: guard-obligation extraction (canonical signed atoms of the path condition of every raise / "
+                 "assert, DNF, locals inlined, loop variables positional), comparison against a reviewed table with subset "
+                 "semantics, delegation through callees with parameter binding, early-exit (bypass) detection, acceptance-"
+                 "predicate monotonicity for boolean validators, path-sensitive store-before-raise ordering",
+    "level": "Decides that each of the ~330 reviewed precondition guards is still enforced on the current tree (same or stronger "
+             "condition, in the function or a callee, not bypassed by a new normal exit), that the boolean validators accept no "
+             "more than before, that validating helper calls are still made with the same operands, and that receiver-mutating "
+             "operations cannot reject after their first write. Deleting a check, changing its comparator or bound, adding a "
+             "conjunct, swallowing it in try/except or returning early in front of it are all reported. Does not decide that a "
+             "guard's arithmetic is right for all sizes.",
+    "note": "Trusted: the reviewed table tables/c19_guards.json (+ c19_review.json) as the statement of which conditions are "
+            "preconditions; default interpreter mode (asserts on); canonicalisation in pv/guards.py.",
+}
+
 NOT_APPLICABLE = {}
